@@ -783,3 +783,113 @@ twin("c09-twin-tab-test", "C09", (GMAP, 'if re.search("\\t", line):  # gophermap
 twin("c09-twin-for-loop", "C09", (GMAP, "            while True:\n                line = rfile.readline().decode(errors=\"surrogateescape\")\n                if not line:\n                    break\n",
      "            for raw in rfile:\n                line = raw.decode(errors=\"surrogateescape\")\n"))
 twin("c09-twin-setters", "C09", (GMAP, "                    entry.type = args[0][0]\n                    entry.name = args[0][1:]\n", "                    entry.settype(args[0][0])\n                    entry.setname(args[0][1:])\n"))
+
+# ======================================================================= round f (rules R02h near misses, R05j, R06h URL, R07k, R08g full blocks,
+# R11e, R12f, R16i, R17k, R18f, R20a paths, R20d evaluation)
+fault("c02-request-stripped-in-base", "C02", "R02h", (PBASE, "        self.request = request\n", "        self.request = request.strip()\n"))
+twin("c02-twin-http-parts-local", "C02",
+     (HTTP, '''        self.requestparts = [arg.strip() for arg in self.request.split(" ")]
+''', '''        parts = self.request.split(" ")
+        self.requestparts = [arg.strip() for arg in parts]
+'''))
+fault("c05-second-member-reader", "C05", "R05j",
+      (ZIP, "                if zipfile.is_zipfile(self.vfs.getfspath(basename)):  # noqa\n",
+       "                if zipfile.is_zipfile(self.vfs.getfspath(basename)) and (\n"
+       "                    appendage is None or appendage in zipfile.ZipFile(self.vfs.getfspath(basename)).namelist()\n"
+       "                ):  # noqa\n"))
+fault("c06-wap-href-raw", "C06", "R06h", (HTTP, "html.escape(url)", "url"), (WAP, '''        retstr = ""
+        if not entry.gettype() in ["i", "7"]:''', '''        retstr = ""
+        url = url.replace("&amp;", "&")
+        if not entry.gettype() in ["i", "7"]:'''))
+fault("c07-cache-kept-while-dir-unchanged", "C07", "R07k",
+      (DIR, "        if time.time() - statval[stat.ST_MTIME] < self.cachetime:\n",
+       "        if time.time() - statval[stat.ST_MTIME] < self.cachetime or (\n"
+       "            self.statresult and self.statresult[stat.ST_MTIME] < statval[stat.ST_MTIME]\n        ):\n"))
+fault("c08-block-ends-when-complete", "C08", "R08g",
+      (UMN, "            # FIXME: Handle Admin, URL, TTL\n\n        if done[\"path\"]:", "            # FIXME: Handle Admin, URL, TTL\n            if all(done.values()):\n                break\n\n        if done[\"path\"]:"))
+fault("c11-cache-rewritten-in-place", "C11", "R11e",
+      (DIR, '            with self.vfs.open(self.cachename, "wb") as fp:\n                pickle.dump(self.fileentries, fp, 1)\n',
+       '            with self.vfs.open(self.cachename, "r+b" if self.vfs.isfile(self.cachename) else "wb") as fp:\n'
+       '                pickle.dump(self.fileentries, fp, 1)\n                fp.truncate()\n'))
+fault("c11-cache-appended", "C11", "R11e", (DIR, 'self.vfs.open(self.cachename, "wb")', 'self.vfs.open(self.cachename, "ab")'))
+fault("c11-zip-index-updated-in-place", "C11", "R11e", (ZIP, 'shelve.open(cache_fspath, "n")', 'shelve.open(cache_fspath, "c")'))
+twin("c11-twin-mode-constant", "C11",
+     (DIR, '            with self.vfs.open(self.cachename, "wb") as fp:\n', '            mode = "wb"\n            with self.vfs.open(self.cachename, mode) as fp:\n'))
+fault("c12-isfile-means-not-a-directory", "C12", "R12f",
+      (BASE, "        return os.path.isfile(filepath)\n", "        return os.path.exists(filepath) and not os.path.isdir(filepath)\n"))
+fault("c12-isfile-by-lstat-mode", "C12", "R12f",
+      (BASE, "        return os.path.isfile(filepath)\n",
+       "        try:\n            return not stat.S_ISDIR(os.stat(filepath).st_mode)\n        except OSError:\n            return False\n"),
+      (BASE, "import os.path\n", "import os.path\nimport stat\n"))
+twin("c12-twin-isfile-by-stat-mode", "C12",
+     (BASE, "        return os.path.isfile(filepath)\n",
+      "        try:\n            return stat.S_ISREG(os.stat(filepath).st_mode)\n        except OSError:\n            return False\n"),
+     (BASE, "import os.path\n", "import os.path\nimport stat\n"))
+fault("c16-directory-member-replaces-level", "C16", "R16i",
+      (ZIP, "                if level not in dirlevel:\n                    self.dircache[str(nextinode)] = {}\n",
+       "                if level not in dirlevel or filename.endswith(\"/\"):\n                    pass\n                if True:\n                    self.dircache[str(nextinode)] = {}\n"))
+fault("c17-exists-first-evaluable-alternative", "C17", "R17k",
+      (TALES, "\t\t\t\tif (pathResult):\n\t\t\t\t\treturn self.true\n", "\t\t\t\tif (pathResult):\n\t\t\t\t\treturn self.true\n\t\t\t\treturn self.false\n"))
+fault("c17-alternation-skips-false", "C17", "R17k",
+      (TALES, "\t\t\t\ttry:\n\t\t\t\t\treturn self.evaluate (path.strip ())\n\t\t\t\texcept PathNotFoundException as e:\n\t\t\t\t\t# Path didn't exist, try the next one\n",
+       "\t\t\t\ttry:\n\t\t\t\t\tfound = self.evaluate (path.strip ())\n\t\t\t\t\tif found:\n\t\t\t\t\t\treturn found\n\t\t\t\texcept PathNotFoundException as e:\n\t\t\t\t\t# Path didn't exist, try the next one\n"))
+fault("c17-not-of-nothing-false", "C17", "R17k", (TALES, "\t\tif (pathResult is None):\n\t\t\t# Value was Nothing\n\t\t\treturn self.true\n", "\t\tif (pathResult is None):\n\t\t\t# Value was Nothing\n\t\t\treturn self.false\n"))
+fault("c17-string-dollar-dollar", "C17", "R17k", (TALES, "\t\t\t\t\t\t\tresult += '$'\n\t\t\t\t\t\t\tskipCount = 1\n", "\t\t\t\t\t\t\tresult += '$$'\n\t\t\t\t\t\t\tskipCount = 1\n"))
+twin("c17-twin-alternatives-helper", "C17",
+     (TALES, '''			for path in allPaths:
+				# Evaluate this path
+				try:
+					return self.evaluate (path.strip ())
+				except PathNotFoundException as e:
+					# Path didn't exist, try the next one
+					pass
+			# No paths evaluated - raise exception.
+			raise PATHNOTFOUNDEXCEPTION
+''', '''			return self.firstFound (allPaths)
+'''),
+     (TALES, '''	def evaluateExists (self, expr):
+''', '''	def firstFound (self, paths):
+		for path in paths:
+			try:
+				return self.evaluate (path.strip ())
+			except PathNotFoundException as e:
+				pass
+		raise PATHNOTFOUNDEXCEPTION
+
+	def evaluateExists (self, expr):
+'''))
+fault("c18-mixin-close-shadows-parser", "C18", "R18f",
+      (TALPY, "\tdef parseStartTag (self, tag, attributes, singletonElement=0):\n", "\tdef close (self):\n\t\tself.log.debug (\"template complete\")\n\n\tdef parseStartTag (self, tag, attributes, singletonElement=0):\n"))
+twin("c18-twin-mixin-finish", "C18",
+     (TALPY, "\tdef parseStartTag (self, tag, attributes, singletonElement=0):\n", "\tdef finish (self):\n\t\tself.log.debug (\"template complete\")\n\n\tdef parseStartTag (self, tag, attributes, singletonElement=0):\n"))
+fault("c20-resets-not-logged-by-server", "C20", "R20a",
+      (SERVER, "                traceback.print_exc()\n            GopherExceptions.log(e, protohandler, None)\n        except Exception as e:",
+       "                traceback.print_exc()\n                GopherExceptions.log(e, protohandler, None)\n        except Exception as e:"))
+twin("c20-twin-log-line-helpers", "C20",
+     (GEXC, '''    protostr = "None"
+    handlerstr = "None"
+    ipaddr = "unknown-address"
+    exceptionclass = type(exception).__name__
+    if protocol:
+        protostr = type(protocol).__name__
+        ipaddr = protocol.requesthandler.client_address[0]
+    if handler:
+        handlerstr = type(handler).__name__
+
+    logger.log(
+        "%s [%s/%s] EXCEPTION %s: %s"
+        % (ipaddr, protostr, handlerstr, exceptionclass, str(exception))
+    )
+''', '''    logger.log(
+        f"{_peer(protocol)} [{_cls(protocol)}/{_cls(handler)}] EXCEPTION {_cls(exception)}: {exception!s}"
+    )
+
+
+def _cls(obj):
+    return type(obj).__name__ if obj else "None"
+
+
+def _peer(protocol):
+    return protocol.requesthandler.client_address[0] if protocol else "unknown-address"
+'''))
+fault("c20-log-line-peer-port", "C20", "R20d", (GEXC, "protocol.requesthandler.client_address[0]", "protocol.requesthandler.client_address[1]"))
